@@ -552,14 +552,24 @@ CO_ERR COCSdoResponse(CO_CSDO *csdo)
             COCSdoAbort(csdo, CO_SDO_ERR_CMD);
             COCSdoTransferFinalize(csdo);
         }
-    } else if (cmd == 0x60u) {
-        result = COCSdoDownloadExpedited(csdo);
-        return (result);
-    } else if ((cmd & 0x43u) != 0u) {
-        result = COCSdoUploadExpedited(csdo);
-        return (result);
     } else {
-        COCSdoAbort(csdo, CO_SDO_ERR_PARA_INCOMP);
+        /* expedited transfer: response must answer the request */
+        index = CO_GET_WORD(csdo->Frm, 1u);
+        sub   = CO_GET_BYTE(csdo->Frm, 3u);
+        if ((index != csdo->Tfer.Idx) ||
+            (sub   != csdo->Tfer.Sub)) {
+            COCSdoAbort(csdo, CO_SDO_ERR_PARA_INCOMP);
+            COCSdoTransferFinalize(csdo);
+        } else if ((csdo->Tfer.Type == CO_CSDO_TRANSFER_DOWNLOAD) &&
+                   (cmd == 0x60u)) {
+            result = COCSdoDownloadExpedited(csdo);
+        } else if ((csdo->Tfer.Type == CO_CSDO_TRANSFER_UPLOAD) &&
+                   ((cmd & 0xF2u) == 0x42u)) {
+            result = COCSdoUploadExpedited(csdo);
+        } else {
+            COCSdoAbort(csdo, CO_SDO_ERR_CMD);
+            COCSdoTransferFinalize(csdo);
+        }
     }
     
     return (result);
